@@ -28,6 +28,12 @@ def run(tier):
     try:
         C03.integrator_contracts(R, reg, src, PID)
         R.under_contract(intcall.check_controller_error_measure(reg, src, PID))
+        # the tolerances the controller reads are the system's: a tolerance assigned later rebuilds the integrator (every kind of
+        # integrator class, also the wrappers that copy the tolerances once at construction) from the current settings
+        from . import ctor
+        for fi in ctor.check_setters(reg, src, PID):
+            if fi.qualname.split(".")[1] in ("rtol", "atol"):
+                R.under_contract(fi)
         R.under_contract(intcall.check_richardson_call(reg, src, PID))
         for fi in IC.verify_helpers(src, reg, PID):
             R.under_contract(fi)
